@@ -4,7 +4,7 @@
 From hls Require Import Base Float Lex Kinds Types Tags Line Keys Media Master.
 From hls.Generated Require Import Tables.
 From hls.Proofs Require Import Build Parse Lexical MasterOrder Values AttrText TagText TagTextMedia TagTextVariant
-  TagTextSegment TagTextDateRange AttrTables MasterText.
+  TagTextSegment TagTextDateRange AttrTables MasterText Restyle.
 From Coq Require Import String.
 From Coq Require Import Lia.
 Open Scope N_scope.
@@ -94,6 +94,19 @@ Proof. exact master_text_roundtrip. Qed.
 Check C02_canonical_text : forall p, wf_master p = true -> validate_master p = true ->
   parse_master (print_master p) = Ok p.
 Print Assumptions C02_canonical_text.
+
+(* ... and for every other presentation of that text (closure of the presentation changes of C12 on the cleaned lines) *)
+Theorem C02_styled_text : forall p t r r0, wf_master p = true -> validate_master p = true ->
+  tag t pfx_ExtM3u = Ok r -> tag (print_master p) pfx_ExtM3u = Ok r0 -> restyle_master (clean_lines r) (clean_lines r0) ->
+  parse_master t = Ok p.
+Proof.
+  intros p t r r0 Hw Hv Ht Ht0 HR. rewrite (restyle_parse_master t (print_master p) r r0 Ht Ht0 HR).
+  apply master_text_roundtrip; assumption.
+Qed.
+Check C02_styled_text : forall p t r r0, wf_master p = true -> validate_master p = true ->
+  tag t pfx_ExtM3u = Ok r -> tag (print_master p) pfx_ExtM3u = Ok r0 -> restyle_master (clean_lines r) (clean_lines r0) ->
+  parse_master t = Ok p.
+Print Assumptions C02_styled_text.
 
 Example C02_example :
   match parse_master (lit "#EXTM3U
